@@ -93,7 +93,8 @@ def args_at(ins, idx):
 
 import os
 ONLY = os.environ.get('FAMS')
-if ONLY: OUT = '/verif/specs/zz_polymod_dbg.vspec'
+UNIT = os.environ.get('UNIT', 'zz_polymod_dbg')
+if ONLY: OUT = '/verif/specs/%s.vspec' % UNIT
 for name, f in FAM.items():
     if ONLY and name not in ONLY.split(','): continue
     ins = f['ins']; nin = len(ins)
@@ -211,7 +212,8 @@ for name, f in FAM.items():
         w('//@ loop 1')
         w('        invariant it.snapshot.end == moduli.len(), ' + ', '.join(invp) + ',')
         call = fn + '('
-        w('//@ before 1 %s' % call)
+        anchor_b = call if name in ('modulo', 'negate') else 'let upper ='
+        w('//@ before 1 %s' % anchor_b)
         w('    let ghost prev = %s@; let ghost off = offset as int; let ghost dg = degree as int;' % resp)
         w('    proof {')
         w('        assert((i + 1) * dg == i * dg + dg && (i + 1) * dg <= dg * moduli.len()) by(nonlinear_arith) requires 0 <= i < moduli.len(), dg > 0;')
@@ -262,7 +264,8 @@ for name, f in FAM.items():
         w('//@ loop 1')
         w('        invariant it.snapshot.end == pcount, ' + ', '.join(invs) + ',')
         callp = fnp + '('
-        w('//@ before 1 %s' % callp)
+        anchor_bs = callp if name in ('modulo', 'negate') else 'let upper ='
+        w('//@ before 1 %s' % anchor_bs)
         w('    let ghost prev = %s@; let ghost off = offset as int; let ghost dg = degree as int; let ghost gk = moduli.len() as int; let ghost gd = d as int;' % ress)
         w('    proof {')
         w('        assert((i + 1) * gd == i * gd + gd && (i + 1) * gd <= pcount * gd) by(nonlinear_arith) requires 0 <= i < pcount, gd >= 0;')
@@ -287,6 +290,7 @@ for name, f in FAM.items():
 w('} // verus!')
 w('fn main() {}')
 txt = '\n'.join(out) + '\n'
-if ONLY: txt = txt.replace('//@ unit c06_polymod', '//@ unit zz_polymod_dbg').replace('//@ property C06 C02 C09', '//@ property NONE')
+if ONLY: txt = txt.replace('//@ unit c06_polymod', '//@ unit ' + UNIT)
+if ONLY and UNIT.startswith('zz'): txt = txt.replace('//@ property C06 C02 C09', '//@ property NONE')
 open(OUT, 'w').write(txt)
 print('wrote', OUT, len(out), 'lines')
